@@ -377,7 +377,7 @@ pub const RULE_TK: &str = "seeded histories of puts (whole and chunked), tickets
 pub const RULE_CORPUS: &str = "seeded corpora (1..40 documents in quick, ..200 in thorough: short and chunked texts over a fixed pseudo-word vocabulary with planted query words, random uris/tags/tracks/timestamps/embeddings, instant indexing on or off, commits every n documents, updates and deletes addressed by uri) followed by a query battery (single words, AND/OR/NOT, phrases, field terms, uri/scope, as_of filters, sketch on/off, top_k 1..50, timelines, vector queries) issued while records are pending, after commit, after reopen, on a read-only handle and after a doctor rebuild; a run is non-trivial iff >=1 mutation was acknowledged and >=1 full model comparison ran on a reopened handle; distinct = distinct (op-kind count buckets, probes hit) classes among non-trivial runs";
 
 fn hist(id: &'static str, gen: fn(u64, Tier) -> Scenario, probes: &'static [&'static str]) -> CheckDef {
-    CheckDef { id, level: "exploration", quick_s: 40, thorough_s: 600, gen, run: run_history, rule: RULE_HISTORY, assumptions: &["reference model as in C01"], want_probes: probes }
+    CheckDef { id, level: "exploration", quick_s: if id == "C42" { 80 } else { 40 }, thorough_s: 600, gen, run: run_history, rule: RULE_HISTORY, assumptions: &["reference model as in C01"], want_probes: probes }
 }
 fn corpus(id: &'static str, gen: fn(u64, Tier) -> Scenario, probes: &'static [&'static str]) -> CheckDef {
     CheckDef {
@@ -453,7 +453,7 @@ pub fn all() -> Vec<CheckDef> {
         corpus("C15", gen_corpus_img, &["timelines"]),
         corpus("C16", gen_corpus_plain, &["pagination_multi_page"]),
         corpus("C28", gen_corpus_steer, &["differential_compares"]),
-        CheckDef { id: "C18", level: "exploration", quick_s: 40, thorough_s: 600, gen: |s, _t| gen::gen_readonly(s), run: run_history, rule: RULE_RO, assumptions: &["write-class syscalls are observed at the process's libc boundary (write/pwrite/ftruncate/rename/unlink/copy_file_range on the memory's directory); mmap is read-only in this code base"], want_probes: &["ro_opens", "ro_byte_snapshots", "abandon", "searches"] },
+        CheckDef { id: "C18", level: "exploration", quick_s: 80, thorough_s: 600, gen: |s, _t| gen::gen_readonly(s), run: run_history, rule: RULE_RO, assumptions: &["write-class syscalls are observed at the process's libc boundary (write/pwrite/ftruncate/rename/unlink/copy_file_range on the memory's directory); mmap is read-only in this code base"], want_probes: &["ro_opens", "ro_byte_snapshots", "abandon", "searches"] },
         CheckDef { id: "C19", level: "exploration", quick_s: 40, thorough_s: 600, gen: |s, t| gen::gen_single_file(s, if t == Tier::Quick { 20 } else { 40 }), run: run_history, rule: RULE_SF, assumptions: &["injected errors are returned at the libc boundary for calls on the memory's directory only", "reads through mmap cannot be faulted"], want_probes: &["dir_listings", "sidecar_refusals", "op_errors"] },
         CheckDef { id: "C24", level: "exploration", quick_s: 40, thorough_s: 600, gen: |s, _t| gen::gen_tickets(s, true), run: run_history, rule: RULE_TK, assumptions: &["capacity is compared with the end offset of frame payloads as reported by the public Frame fields"], want_probes: &["capacity_checks", "tickets_accepted", "rejected_calls_monitored"] },
         CheckDef { id: "C25", level: "exploration", quick_s: 40, thorough_s: 600, gen: |s, _t| gen::gen_tickets(s, false), run: run_history, rule: RULE_TK, assumptions: &["the only authentic signature available offline is the vector pinned in the crate's own signature tests (memory 69601cef-..., seq 9); every other signature is forged"], want_probes: &["tickets_accepted", "stale_tickets_rejected", "forged_tickets_rejected", "rejected_calls_monitored", "authentic_signed_ticket_accepted", "authentic_ticket_for_other_memory_rejected"] },
